@@ -165,6 +165,14 @@ class get_expr_end_visitor(NodeVisitor):
         self.visit(node)
         return self.last_loc
 
+    def see(self, node):
+        # type: (AST) -> None
+        # the right-most position in the text, which need not be the last
+        # node of the tree: 'f(k=1, *x)' has the keyword after the star
+        loc = node.lineno, node.col_offset + 1  # type: ignore[attr-defined]
+        if loc > self.last_loc:
+            self.last_loc = loc
+
     def visit_Store(self, node):
         # type: (AST) -> None
         pass
@@ -175,14 +183,14 @@ class get_expr_end_visitor(NodeVisitor):
 
     def visit_Constant(self, node):
         # type: (Constant) -> None
-        self.last_loc = node.lineno, node.col_offset + 1
+        self.see(node)
 
     def __getattr__(self, name):
         # type: (str) -> t.Callable[[AST], None]
         def inner(node):
             # type: (AST) -> None
             try:
-                self.last_loc = node.lineno, node.col_offset + 1
+                self.see(node)
             except AttributeError:
                 pass
             self.generic_visit(node)
